@@ -110,7 +110,7 @@ func telemetryCounterName(crash []byte) (string, error) {
 	}
 
 	// Limit the number of frames we request.
-	pcs = pcs[:min(len(pcs), 16)]
+	pcs = pcs[:min(len(pcs), maxFrames)]
 
 	if len(pcs) == 0 {
 		// This can occur if all goroutines are idle, as when
@@ -151,8 +151,17 @@ func telemetryCounterName(crash []byte) (string, error) {
 	//
 	// So for now, we use this constant string.
 	const prefix = "crash/crash"
-	return counter.EncodeStack(pcs, prefix), nil
+	name := counter.EncodeStack(pcs, prefix)
+	// A program counter inside inlined calls is rendered as one frame per
+	// call: limit the number of frames in the name as well.
+	if lines := strings.SplitN(name, "\n", maxFrames+2); len(lines) > maxFrames+1 {
+		name = strings.Join(lines[:maxFrames+1], "\n")
+	}
+	return name, nil
 }
+
+// maxFrames is the number of frames reported for a crash.
+const maxFrames = 16
 
 // parseStackPCs parses the parent process's program counters for the
 // first running goroutine out of a GOTRACEBACK=system traceback,
